@@ -112,7 +112,12 @@ func runSession(r *core.Run) {
 			case "smgp30.Login":
 				pdu, built = smgp30.NewLogin("acct", "secret", seq), "constructor"
 			case "sgip12.Bind":
+				at := time.Now() // the simulated clock; nothing moves it during the call
 				pdu, built = sgip12.NewBind("acct", "secret", m.Seq[0], seq), "constructor"
+				want := uint32(int(at.Month())*100000000 + at.Day()*1000000 + at.Hour()*10000 + at.Minute()*100 + at.Second())
+				if b, ok := pdu.(*sgip12.Bind); ok && b.Header.Sequence[1] != want {
+					r.Fail("C10", "resp-seq", "sgip12.NewBind", "word=1/clock", "the constructor stamped %010d as the second sequence word at %s (mmddhhmmss would be %010d)", b.Header.Sequence[1], at.Format("01-02 15:04:05"), want)
+				}
 			}
 		}
 		if pdu == nil {
@@ -166,6 +171,9 @@ func runSession(r *core.Run) {
 		dispatchRetention(r, proto)
 	}
 	dispatchAnyType(r, proto)
+	if r.Cfg.Index%40 == 7 {
+		unsupportedStorm(r, proto)
+	}
 	if len(window) == 0 {
 		return
 	}
@@ -575,6 +583,53 @@ func dispatchRetention(r *core.Run, proto *spec.Proto) {
 
 // checkSetSeq: on a PDU obtained from the library, setting a sequence number is visible through the getter and
 // at the header's sequence offset, and leaves the command id alone.
+// unsupportedStorm: a peer that speaks a dialect the package does not implement sends hundreds of frames with command
+// ids the dispatcher does not know (defined by the protocol or not). The thousandth is answered like the first: with
+// the 'unsupported' error - no panic, no nil PDU with a nil error, whatever the dispatcher counts or logs on the way.
+func unsupportedStorm(r *core.Run, proto *spec.Proto) {
+	c := r.C
+	hl := proto.HeaderLen()
+	known := map[uint32]bool{}
+	for _, pd := range proto.PDUs {
+		for _, id := range pd.IDs {
+			known[id] = true
+		}
+	}
+	var ids []uint32
+	for id := uint32(1); id < 0x40 && len(ids) < 24; id++ {
+		for _, x := range []uint32{id, id | 0x80000000} {
+			if !known[x] {
+				ids = append(ids, x)
+			}
+		}
+	}
+	ids = append(ids, 0, 0x80000000, 0xffffffff, uint32(c.Uint64())|0x00010000)
+	r.Probe("storm_of_unsupported_frames")
+	img := make([]byte, hl+8)
+	binary.BigEndian.PutUint32(img, uint32(len(img)))
+	for k := 0; k < 1300; k++ {
+		id := ids[k%len(ids)]
+		if known[id] {
+			continue
+		}
+		binary.BigEndian.PutUint32(img[4:], id)
+		var pdu protocol.PDU
+		var err error
+		if p := r.Call("Decode"+proto.Name, func() { pdu, err = dispatcher[proto.Name](img) }); p != nil {
+			r.Fail("C10", "panic", p.Frame, p.Kind, "frame %d of a run of frames with unsupported command ids (this one %#x): %s", k+1, id, p.Value)
+			return
+		}
+		if pdu == nil && err == nil {
+			r.Fail("C10", "dispatch", "Decode"+proto.Name, "nil-nil", "frame %d of a run of unsupported frames (command id %#x): neither a PDU nor an error", k+1, id)
+			return
+		}
+		if !errors.Is(err, protocol.ErrUnsupportedPacket) {
+			r.Fail("C10", "dispatch", "Decode"+proto.Name, "not-unsupported", "frame %d of a run of unsupported frames (command id %#x) was answered with %v (PDU %v)", k+1, id, err, pdu != nil)
+			return
+		}
+	}
+}
+
 // headerAccessors: the embedded header of an SGIP PDU has accessors of its own (the message id a gateway files the
 // submit under); they must agree with the PDU's getter, and a report's submit id with the third word it carries.
 func headerAccessors(r *core.Run, pdu protocol.PDU) {
